@@ -160,3 +160,14 @@ Theorem C19_only_a_421_may_be_passed_on :
              lost_sources error_source None tr = [(1, None)].
 Proof. exact any_4xx_is_foreign. Qed.
 Print Assumptions C19_only_a_421_may_be_passed_on.
+
+(* C19_bound rests on the check-then-add sections of RelayPool being atomic (EvAttempt and EvExit
+   are single events of [pstep]): were add_client() - the client's constructor - allowed to yield
+   between `len(pool) < pool_size` and `pool.add(client)`, two callers could both pass the check;
+   with the two halves as separate events a pool of size 1 reaches 2 clients.  On the code the
+   assumption is checked at run time (no greenlet switch inside _check_idle / _remove_client, none
+   between _check_idle and queue.append). *)
+Theorem C19_bound_needs_atomic_check_and_add :
+  exists es, s_pool (run (S := split_sys 1) es) = 2.
+Proof. exact split_check_and_add_exceeds. Qed.
+Print Assumptions C19_bound_needs_atomic_check_and_add.
